@@ -10,8 +10,8 @@
                     the message: no range dangles, so the find_sysline_year that follows cannot panic
      year_call_ok   hence, as long as the year does not change, every find_sysline_year call of the reverse pass is
                     answered as the spec of that year's oracle says (backward calls included: every block readable)
-   NOT proved: the invariant ACROSS a change of the year (messages dated with the later year stay in `syslines`); see
-   Props/C02.v yearless_reverse_pass_partial. *)
+   The invariant ACROSS a change of the year (messages dated with the later year stay in `syslines`) is proved in
+   CachesYearParam.v / CachesYearDriver.v; what is still missing: Props/C02.v yearless_driver_partial. *)
 From S4.Base Require Import Bytes Chunk.
 From S4.Spec Require Import LinesSpec.
 From S4.Model Require Import Lines Syslines Caches.
